@@ -93,7 +93,8 @@ theorem applyHop5_holds [DecidableEq ν] (ops : NameOps ν) (reserved : ν → B
         | none =>
           simp only at hh
           cases hh
-          refine ⟨?_, ⟨hrect', hc, ht, ⟨by simp [defaultNames], hd c⟩⟩⟩
+          have hperm := sortVarsNames_perm ops.lt hrect hn names hok.1
+          refine ⟨?_, ⟨hrect', hc, ht, ⟨by rw [hperm.length_eq]; exact hok.1, hperm.nodup_iff.mpr hok.2⟩⟩⟩
           simp only [applyHop, holds5, holds, hL.2]; rfl
         | some ns =>
           simp only at hh
@@ -140,26 +141,23 @@ theorem applyHop5_holds [DecidableEq ν] (ops : NameOps ν) (reserved : ν → B
       rw [hrect.1] at this; omega
     cases shape with
     | tab2 labels =>
-      cases k with
-      | true => simp [hop5] at hh
-      | false =>
-        have h2 := from2dToNested_ok ops (⟨labels, tab2Rows X⟩ : Tab2 α) hne
-        cases cols with
-        | none =>
+      have h2 := from2dToNested_ok ops (⟨labels, tab2Rows X⟩ : Tab2 α) hne k
+      cases cols with
+      | none =>
+        simp only [hop5] at hh
+        cases hh
+        refine ⟨?_, ⟨rect_panelOfRows hrect, Nat.one_pos, Nat.mul_pos hc ht, ⟨rfl, by simp⟩⟩⟩
+        simp only [applyHop, holds5, holds, h2.1]; rfl
+      | some ns =>
+        match ns, hh with
+        | [name], hh =>
           simp only [hop5] at hh
           cases hh
           refine ⟨?_, ⟨rect_panelOfRows hrect, Nat.one_pos, Nat.mul_pos hc ht, ⟨rfl, by simp⟩⟩⟩
-          simp only [applyHop, holds5, holds, h2.1]; rfl
-        | some ns =>
-          match ns, hh with
-          | [name], hh =>
-            simp only [hop5] at hh
-            cases hh
-            refine ⟨?_, ⟨rect_panelOfRows hrect, Nat.one_pos, Nat.mul_pos hc ht, ⟨rfl, by simp⟩⟩⟩
-            simp only [applyHop, holds5, holds, h2.2 name]; rfl
-          | [], hh => simp [hop5] at hh
-          | _ :: _ :: _, hh => simp [hop5] at hh
-    | _ => cases k <;> simp [hop5] at hh
+          simp only [applyHop, holds5, holds, h2.2 name]; rfl
+        | [], hh => simp [hop5] at hh
+        | _ :: _ :: _, hh => simp [hop5] at hh
+    | _ => simp [hop5] at hh
 
 /-- any path over the five containers: by induction over the hops -/
 theorem applyPath5_holds [DecidableEq ν] (ops : NameOps ν) (reserved : ν → Bool)
